@@ -40,10 +40,12 @@ RULE = ("random values over ASCII word/separator/quote characters, letters and n
         " indexing on/off x small and default size limits x SeqQL (five quoting styles) or legacy ParseQuery (quoted /"
         " bare). For every value: the real tokenizer's tokens, and for every query the property names (whole value /"
         " each word / each leading path of the indexed part) the real parser's literals and the real pattern.Search"
-        " verdict. Free SeqQL query cases (unescaped wildcards, U+E000). Random mappings + nested documents (objects,"
+        " verdict; the same values through the other filter forms of SeqQL: `f:in(v)`, `f:in(x, v, y)` with unrelated members"
+        " and `f:[v to v]` (keyword/path), the member/bounds compared with the plain form's literals on the real ASTs."
+        " Free SeqQL query cases (unescaped wildcards, U+E000). Random mappings + nested documents (objects,"
         " tag arrays, nested arrays, multi-type fields, type/value mismatches, tags without value) through the real bulk"
-        " processor: all metas compared with the model, `_exists_:<title>` queried with the parser in case-insensitive"
-        " mode. End to end: documents through a real ingestor + store, every named query through both parsers must"
+        " processor: all metas compared with the model, `_exists_:<title>` queried in the plain, in(...) and range forms with the parser"
+        " in case-insensitive and case-sensitive mode. End to end: documents through a real ingestor + store, every named query through both parsers must"
         " return the document. non-trivial = value has a non-ASCII byte, an upper-case letter, a"
         " quote/backslash/'*'/'_'/'/' or is cut by a size limit, is not skipped and yields at least one query /"
         " document with a container field and more than 3 tokens; distinct by input")
